@@ -168,10 +168,18 @@ impl Monitor for C09 {
                     continue;
                 }
                 std::fs::write(dir.join(fname), &d).expect("write damaged file");
-                let r = catch_unwind(AssertUnwindSafe(|| mrecordlog::MultiRecordLog::open(&dir).map(|log| Snapshot::take(&log))));
+                let mut resumed = 0u64;
+                let r = catch_unwind(AssertUnwindSafe(|| {
+                    mrecordlog::MultiRecordLog::open(&dir).map(|log| {
+                        // the survivors must also reach a consumer that resumes behind a position
+                        // next to the hole the dropped entry left
+                        Snapshot::take(&log).and_then(|s| s.resume_reads(&log).map(|n| { resumed = n; s }))
+                    })
+                }));
                 // recovery may GC / write: restore the whole image afterwards
                 acc.eval();
                 acc.count("damaged_images_opened");
+                acc.add("resuming_reads_compared_on_recovered_logs", resumed);
                 acc.count(&format!("alteration_{}", what));
                 acc.count(&format!("frames_damaged_type_{}", ["?", "full", "first", "middle", "last"][f.ftype as usize]));
                 let opk = if call == u64::MAX { "initial-open" } else { run.ops[call as usize].kind() };
